@@ -19,18 +19,18 @@ CHECKS = {
          "Seeded exploration of fault-free histories; acknowledged metrics must be written exactly once, in order, by the next successful flush or the drop; flushing again writes nothing; results must be Ok(len).", SOCK),
  "C07": ("linebuf", "E2", "5.2", "seeded fault injection on every attempted underlying write (single-fault sweep over every attempt of sampled histories + random multi-fault with consecutive retries), judged by the same reference model in fault mode",
          "Seeded fault-injecting exploration: each attempted underlying write may fail with any io::ErrorKind (incl. Interrupted, retried by BufWriter); results must be Ok or the socket's own error, refused metrics never appear later, accepted ones stay buffered and leave exactly once, unsplit and in order; no panic. A separate configuration also fails the writer's own flush().", SOCK),
- "C19": ("linebuf", "E2", "5.2", "seeded simulation; strict layer of the reference model: each write must happen in the call greedy in-order packing predicts and carry everything buffered",
-         "Seeded exploration of fault-free histories biased to exact-fit / one-byte-short boundaries; the shape of the writes of every call must equal what greedy in-order packing allows (exact-fill writes tolerated as the property states), plus an independent comparison of datagram sizes with the greedy packing of the emitted lengths.", SOCK),
+ "C19": ("linebuf+sockets", "E2+E5", "5.2", "seeded simulation; strict layer of the reference model: each write must happen in the call greedy in-order packing predicts and carry everything buffered; plus seeded schedule search over 1-4 emitter threads sharing a buffered socket sink, every datagram sent during an emit judged for necessity",
+         "Seeded exploration of fault-free histories biased to exact-fit / one-byte-short boundaries; the shape of the writes of every call must equal what greedy in-order packing allows (exact-fill writes tolerated as the property states), plus an independent comparison of datagram sizes with the greedy packing of the emitted lengths. On buffered UDP/Unix sinks shared by 1-4 simulated threads (E5): a datagram that leaves during an emit and does not carry that emit's metric must have been too full to take it.", SOCK),
 }
 
-QNOTE = "the wrapped sink is scripted (ok / io error / panic / slow / stall on a gate per invocation); crossbeam's blocking paths are replaced by simulated waiting on the real queue; capacity 0 (rendezvous, hand-modelled) is excluded from every oracle except no-panic"
+QNOTE = "the wrapped sink is scripted (ok / io error / panic / slow / stall on a gate per invocation); crossbeam's blocking paths are replaced by simulated waiting on the real queue; capacity 0 (rendezvous, hand-modelled) is judged for everything except C10's occupancy clauses"
 CHECKS.update({
  "C08": ("queue", "E3", "5.3", "seeded schedule search over producers x worker interleavings with a scripted wrapped sink; delivered log must equal the channel-acceptance order at quiescence",
          "Seeded exploration (uniform / PCT / bursty / starve-worker / favour-worker schedulers) of histories of emit, clone and drop on several handles from 1-4 caller tasks against the real QueuingMetricSink worker; at quiescence after faults stop, the strings handed to the wrapped sink must equal, as a sequence, the strings accepted by the queue (exactly once, acceptance order, one at a time).", QNOTE),
  "C09": ("queue", "E3", "5.3", "seeded schedule search with drop timing and queue occupancy varied (starve-worker scheduler, stalls); termination and release of the wrapped sink judged at quiescence",
          "Seeded exploration of the last drop at every occupancy 0..=capacity (incl. completely full), by main or by a producer task, with the worker running, starved or stalled inside the wrapped sink; after gates open the run must reach quiescence with everything delivered, every background task finished, the wrapped sink dropped exactly once, and no drop ever blocking or panicking.", QNOTE),
  "C10": ("queue", "E3", "5.3", "seeded schedule search with the wrapped sink stalled on a gate; emit judged by own-step count, blocked-state count and the channel trace",
-         "Seeded exploration with the worker stalled, slow, failing or panicking: emit must never enter a blocked state, take a bounded number of its own steps, return Ok(len) exactly when the channel trace shows room and an error when the queue holds the capacity given to the constructor (never exceeded), never run the wrapped sink on a caller task, and no wrapped-sink error or panic may reach a caller.", QNOTE),
+         "Seeded exploration with the worker stalled, slow, failing or panicking: emit must never enter a blocked state, take a bounded number of its own steps, return Ok(len) exactly when the channel trace shows room and an error only when the queue holds as many METRICS as the capacity given to the constructor (never exceeded; flushes through a handle and whatever else a variant puts on the channel take no room), never run the wrapped sink on a caller task, and no wrapped-sink error or panic may reach a caller.", QNOTE),
  "C11": ("queue", "E3", "5.3", "seeded schedule search with injected panics (real unwinding through Worker::run into Sentinel::drop, which respawns under the scheduler)",
          "Seeded exploration of ok/error/panic assignments incl. consecutive panics, first/last queued and panics after the last drop: delivery must still equal acceptance order exactly once, the sink keeps accepting, and panics() equals the number of injected panics at quiescent points.", QNOTE),
  "C15": ("queue", "E3", "5.3", "seeded schedule search with a concurrent sampler task; counters compared with the harness's own counts at quiescent points",
@@ -42,7 +42,7 @@ CHECKS.update({
 SNOTE = "UDP and Unix datagram sockets are in-memory stubs (ledger of destination, payload, result; injectable result per send incl. EAGAIN, ECONNREFUSED, ENOBUFS, EINTR, ENOENT, EMSGSIZE, and a full buffer that blocks a blocking-mode sender); the real kernel socket is not exercised"
 CHECKS.update({
  "C12": ("sockets", "E5", "5.4", "seeded schedule search over 2-4 emitter tasks sharing one Arc<StatsdClient> over a buffered sink; stream oracle on the merged datagram stream plus a flush barrier",
-         "Seeded exploration of interleavings (yield points at lock, unlock, socket send, stats atomics, channel send - also while the lock is held): every datagram is whole lines within capacity or one oversize metric alone, every Ok-acknowledged metric is on the wire exactly once by the final drop and already when a later flush returns Ok, each task's buffered metrics leave in program order.", SNOTE),
+         "Seeded exploration of interleavings (yield points at lock, unlock, socket send, stats atomics, channel send - also while the lock is held): every datagram is whole lines within capacity or one oversize metric alone, every Ok-acknowledged metric is on the wire exactly once by the final drop and already when a later flush returns Ok, each task's buffered metrics leave in program order. A quarter of the runs also refuse sends (a failed flush of one thread must not damage what another thread emits next).", SNOTE),
  "C13": ("sockets", "E5", "5.5", "seeded simulation of the socket sinks over a stub socket ledger: per-emit datagram matching for unbuffered sinks, the E2 reference model for buffered ones",
          "Seeded exploration over constructor address forms, blocking modes, metric strings (multi-byte UTF-8, blanks at the edges, embedded newlines, 0..65507 bytes and one over), capacities and send results: one datagram per emit with exactly the metric's bytes to the constructed destination and the socket's own result; buffered sinks follow the C05 model with a single newline and send the rest on flush and drop.", SNOTE),
  "C14": ("sockets", "E5", "5.5", "seeded schedule search with 1-4 concurrent emitters and injected send failures; stats() compared with the socket ledger at quiescent points, also through a queuing wrapper",
@@ -62,7 +62,7 @@ CHECKS.update({
 })
 
 CHECKS.update({
- "C17": ("macroproc", "E7", "5.7", "one fresh process per seeded history {macros while unset, set, second set, macros after} x fault script; differential against the explicit tagged quiet call on a twin client",
+ "C17": ("macroproc", "E7", "5.7", "one fresh process per seeded history {macros while unset, set, second set, macros after, then 2-3 simulated threads using the macros concurrently while another thread sets again} x fault script x schedule; differential against the explicit tagged quiet call on a twin client",
          "Claimed narrowly. Seeded exploration with one child process per case (the global client is process-wide and set-once): every macro panics while unset and nothing is sent; after set_global_default(A) a second set is ignored for ever; each invocation from a compiled-in matrix (22 macro/value-type combinations x 0..3 tags, runtime strings and values incl. overflowing Durations) must hand A's sink exactly what `twin.<kind>_with_tags(k, v).with_tag(..).send()` hands the twin's, report failures only to A's handler exactly as the twin's, evaluate instrumented argument expressions once, and never panic once set.",
          "most of C17 is a statement about macro expansion, i.e. about inputs; only the history dimension is simulation; the argument matrix is finite and compiled in; sinks are scripted"),
  "C20": ("all", "all", "5.8", "all seven simulation engines with hostile-value generators, overflow checks and debug assertions on, catch_unwind at every API call and task root; only un-injected panics are reported",
@@ -81,7 +81,7 @@ def main():
             "thorough_cmd": f"./check {pid} --tier thorough",
             "evidence_file": f"evidence/{pid}.json",
             "replay_cmd_template": f"./check {pid} --replay {{path}}",
-            "engine": eng,
+            "engine": eng.split("+")[0],
             "level_claimed": {"category": "exploration", "text": text, "design_ref": f"DESIGN.md section {ref}"},
             "level_note": (note + "; single task, no scheduler involved; sampling, not proof") if eng in ("linebuf", "sinkfault", "macroproc", "all") else (note + "; " + SIMNOTE),
             "technique": "deterministic simulation with fault injection: " + tech,
@@ -105,7 +105,7 @@ def main():
         "engines": [
             {"name": "dsim", "path": "dsim/", "serves_properties": sorted(claimed - {"C17"}), "kind_free_text": "simulation kernel (real threads, one runs at a time, seeded scheduler, quiescence detection, teardown) + pass-through shims"},
             {"name": "queue", "path": "ws/engines/src/e3.rs", "serves_properties": ["C08", "C09", "C10", "C11", "C15", "C16"], "kind_free_text": "E3: the real QueuingMetricSink (worker thread, sentinel respawn, crossbeam channel, counters) as simulated tasks against a scripted wrapped sink"},
-            {"name": "sockets", "path": "ws/engines/src/e5.rs", "serves_properties": ["C12", "C13", "C14"], "kind_free_text": "E5: socket-backed sinks over simulated datagram sockets, 1-4 emitter tasks sharing a sink / client / queuing wrapper"},
+            {"name": "sockets", "path": "ws/engines/src/e5.rs", "serves_properties": ["C12", "C13", "C14", "C19"], "kind_free_text": "E5: socket-backed sinks over simulated datagram sockets, 1-4 emitter tasks sharing a sink / client / queuing wrapper"},
             {"name": "holder", "path": "ws/engines/src/e6.rs", "serves_properties": ["C18"], "kind_free_text": "E6: SingletonHolder under simulated tasks with a happens-before tracker; miri-c18/ is the Miri second opinion"},
             {"name": "sinkfault", "path": "ws/engines/src/e1.rs", "serves_properties": ["C03"], "kind_free_text": "E1: StatsdClient over a scripted sink with a per-emit fault plan"},
             {"name": "sharedclient", "path": "ws/engines/src/e8.rs", "serves_properties": ["C03"], "kind_free_text": "E8: one StatsdClient shared by 2-4 simulated caller threads; sink answers per metric; scheduling points inside sink and error handler"},
